@@ -253,7 +253,8 @@ def _rules(ck, prog, cfg):
             for b, t in g.calls():
                 if t["args"] and _self_field(g, t["args"][0]) == "watched_keys":
                     n6b += 1
-                    allowed = is_callee(t, r"(AHashMap|HashMap)::<.*>::(insert|entry|len|is_empty|contains_key|get|iter|keys|reserve)\b", r"Deref(Mut)?>::deref(_mut)?$")
+                    allowed = is_callee(t, r"(AHashMap|HashMap)::<.*>::(insert|entry|len|is_empty|contains_key|get|iter|keys|reserve|extend)\b", r"Deref(Mut)?>::deref(_mut)?$",
+                                        r"(AHashMap|HashMap)<.*> as std::iter::Extend<.*>>::extend")
                     ck.check(allowed, "R05.6", "execute_watch:%s%s" % (callee(t).rsplit("::", 1)[-1].split("<")[0], _tag(cfg)),
                              "execute_watch calls %s on the watched-key map: WATCH must only add keys (an earlier WATCH of the same connection "
                              "stays in force until EXEC/DISCARD/UNWATCH)" % callee(t).rsplit("::", 1)[-1], g.where(t["ln"]), detail="append-only")
@@ -386,9 +387,47 @@ def _executor_twin(ck, prog, cfg):
              and not any(f.dominates(bb, b) and False for bb, _ in maps)]
     replay = [c for c in prog.children(f) if any(is_callee(t, r"CommandExecutor::execute$") for _, t in c.calls())]
     colls = [b for b, t in f.calls() if is_callee(t, r"Iterator>::collect::<std::vec::Vec<redis::resp::RespValue>>$")]
-    ck.check(len(replay) == 1 and len(colls) == 1, "R05.3", "executor:one-result-per-command" + _tag(cfg),
+    # the other accepted form: `for cmd in commands { results.push(self.execute(&cmd)) }` - every iteration executes and pushes once
+    loop_form = False
+    loop_push = None
+    execs = [b for b, t in f.calls() if is_callee(t, r"CommandExecutor::execute$")]
+    pushes = [b for b, t in f.calls() if is_callee(t, r"Vec::<redis::resp::RespValue>::push$")]
+    heads = lib2.loop_heads(f)
+    if len(execs) == 1 and len(pushes) == 1 and not colls:
+        for h, (none_t, some_t, nb) in heads.items():
+            body = {some_t} | f.reach([some_t], avoid=[h])
+            if execs[0] in body and pushes[0] in body and lib2.iteration_skips(f, h, {pushes[0]}) is None and \
+                    lib2.iteration_skips(f, h, {execs[0]}) is None:
+                it = src_of_operand(f, f.term(nb)["args"][0], through_calls=TRANSPARENT)
+                chain = []
+                cur = it
+                hops = 0
+                while cur.kind == "call" and hops < 6:
+                    chain.append(callee(cur.term).rsplit("::", 1)[-1].split("<")[0])
+                    if not cur.term["args"]:
+                        break
+                    cur = src_of_operand(f, cur.term["args"][0], through_calls=TRANSPARENT)
+                    hops += 1
+                if chain[:1] == ["into_iter"] and len(chain) <= 2:
+                    loop_form = True
+                    loop_push = pushes[0]
+    ck.check((len(replay) == 1 and len(colls) == 1) or loop_form, "R05.3", "executor:one-result-per-command" + _tag(cfg),
              "execute_exec does not build its reply as one execute() per queued command collected into a Vec", f.where(),
-             detail="commands.into_iter().map(execute).collect()")
+             detail="commands.into_iter().map(execute).collect() or a loop that executes and pushes once per command")
+    if loop_form:
+        viol = None
+        for b in sorted(f.reachable_blocks()):
+            si = switch_info(f, b)
+            if si and si["kind"] == "val" and si["src"].kind in ("call", "path") and (si["src"].root == "watch_violated" or
+                                                                                  (si["src"].kind == "call" and is_callee(si["src"].term, r"Iterator>::any::"))):
+                viol = b
+        ck.check(viol is not None, "R05.3", "executor:watch-test-exists" + _tag(cfg), "execute_exec does not test the WATCH snapshots", f.where())
+        if viol is not None:
+            tt2, ft2 = lib2.bool_edges(f, viol)
+            ck.check(execs[0] not in f.reach([tt2]) and f.dominates(viol, execs[0]), "R05.3", "executor:abort-before-replay" + _tag(cfg),
+                     "the queued commands can be executed although a watched key changed", f.where(f.term(viol)["ln"]),
+                     detail="replay only on the not-violated edge")
+        ck.ok("R05.3", "executor:replay-chain" + _tag(cfg), "loop over commands.into_iter()")
     if colls:
         src = src_of_operand(f, f.term(colls[0])["args"][0])
         chain = []
